@@ -34,7 +34,7 @@ func registerC14() {
 			"(length 0..5000) x PRNG write partitions, compared with the reference (each part written through Write, io.WriteString / WriteString, WriteByte if offered, io.Copy from strings and bytes readers, or a bufio.Writer), also fed through io.Copy / io.CopyN from short-reading and data-with-EOF readers, Reset, residue and Sum(nil); distinct by string digest; family long-writes: for each of the " +
 			"65536 register states s and block offsets 0/4/8/.../28 one single Write of >= 64 bytes that drives the register to s and then feeds it s itself followed by zero bytes " +
 			"(the input on which multi-byte-at-a-time and zero-skipping implementations go wrong), compared with the reference and with a byte-wise feed; family lengths: single writes of 30 KB - 2.3 MB (and a few of 4 - 33 MiB) (from zero and non-zero starting states, workers with GOMAXPROCS=4) whose length (and whose halves, thirds, " +
-			"quarters and eighths) sit at and around multiples of 32767 - the order of x modulo the CRC polynomial, where implementations that split a write and combine partial sums wrap - plus PRNG long lengths, from PRNG starting states; family shared-input: one byte string of 64 KB - 1 MB (and short ones of 64 - 300 bytes) that lies in memory mapped read-only is written to hashes in non-zero states (a store into the input faults and is reported), and eight goroutines, each with a hash of its own in a state of its own, write one shared slice at the same time, several rounds: every sum must be the reference value for prefix + shared bytes, and the shared bytes must be unchanged afterwards; plus the same monitor (checksum, split writes, residue, Reset, every register state) built for GOOS=js GOARCH=wasm and run by node when the host has one",
+			"quarters and eighths) sit at and around multiples of 32767 - the order of x modulo the CRC polynomial, where implementations that split a write and combine partial sums wrap - plus PRNG long lengths, from PRNG starting states; family shared-input: one byte string of 64 KB - 1 MB (and short ones of 64 - 300 bytes) that lies in memory mapped read-only is written to hashes in non-zero states (a store into the input faults and is reported), and eight goroutines, each with a hash of its own in a state of its own, write one shared slice at the same time, several rounds: every sum must be the reference value for prefix + shared bytes, and the shared bytes must be unchanged afterwards; family huge-write (64-bit platforms): one Write of 2^32 + 4099 bytes (thorough: also 2^32 and 2^33 + 1) of zero pages mapped read-only, on a hash in a non-zero state, compared with the reference advanced by matrix power over the zero run (thorough: also with the same bytes written in two parts); plus the same monitor (checksum, split writes, residue, Reset, every register state) built for GOOS=js GOARCH=wasm and run by node when the host has one",
 		Assume:        []string{"the bit-serial reference CRC-16/ARC (12 lines, checked against the catalogue check value 0xBB3D) is the specification"},
 		MinNontrivial: 1 << 24,
 		Families386:   []string{"streaming", "lengths"},
@@ -45,6 +45,7 @@ func registerC14() {
 			{Name: "long-writes", N: func(string) uint64 { return 256 }, Run: c14LongWrites},
 			{Name: "lengths", N: func(t string) uint64 { return tierN(t, 260, 2600) }, Run: c14Lengths},
 			{Name: "shared-input", N: func(t string) uint64 { return tierN(t, 48, 960) }, Run: c14Shared},
+			{Name: "huge-write", N: func(t string) uint64 { return tierN(t, 1, 3) }, Run: c14HugeWrite},
 		},
 		Exhaustive: func(string) bool { return true },
 		Main:       c14Wasm,
@@ -334,6 +335,99 @@ func c14LongWrites(c *lib.Ctx, idx uint64) {
 }
 
 // c14Lengths: long single writes at lengths where split-and-combine implementations wrap.
+// zeroRunCRC returns the register after n zero bytes fed into state st: the step for a zero byte
+// is linear over GF(2), so its n-th power is computed by squaring (images of the 16 unit vectors).
+func zeroRunCRC(st uint16, n uint64) uint16 {
+	var step [16]uint16
+	for i := range step {
+		step[i] = ref.CRCUpdate(1<<uint(i), 0)
+	}
+	apply := func(m *[16]uint16, v uint16) uint16 {
+		var r uint16
+		for i := 0; i < 16; i++ {
+			if v&(1<<uint(i)) != 0 {
+				r ^= m[i]
+			}
+		}
+		return r
+	}
+	for ; n > 0; n >>= 1 {
+		if n&1 != 0 {
+			st = apply(&step, st)
+		}
+		var sq [16]uint16
+		for i := range sq {
+			sq[i] = apply(&step, step[i])
+		}
+		step = sq
+	}
+	return st
+}
+
+// c14HugeWrite: a single Write whose length does not fit in 32 bits. The input is an anonymous
+// read-only mapping that is never written, so it costs no memory (every page is the zero page).
+func c14HugeWrite(c *lib.Ctx, idx uint64) {
+	if strconv.IntSize < 64 {
+		c.Count("huge_write_not_possible_with_32_bit_int", 1)
+		return
+	}
+	n64 := []uint64{1<<32 + 4099, 1 << 32, 1<<33 + 1}[idx%3]
+	n := int(n64)
+	m, err := syscall.Mmap(-1, 0, (n+4095)&^4095, syscall.PROT_READ, syscall.MAP_ANON|syscall.MAP_PRIVATE|syscall.MAP_NORESERVE)
+	if err != nil {
+		c.Count("huge_write_mapping_not_possible", 1)
+		return
+	}
+	defer syscall.Munmap(m)
+	pre := []byte{0xA5, 0x17, byte(idx) | 1}
+	c.SetInflight(pre)
+	if zeroRunCRC(ref.CRC(pre), 70001) != func() uint16 {
+		st := ref.CRC(pre)
+		for i := 0; i < 70001; i++ {
+			st = ref.CRCUpdate(st, 0)
+		}
+		return st
+	}() {
+		c.Violation(pre, "harness: the zero-run reference disagrees with the bit-serial reference")
+		return
+	}
+	want := zeroRunCRC(ref.CRC(pre), n64)
+	h := dyncrc16.New()
+	h.Write(pre)
+	c.Tick()
+	wn, werr := h.Write(m[:n])
+	c.Eval()
+	c.Tick()
+	if werr != nil || wn != n {
+		c.Violation(pre, "one Write of %d bytes returned (%d, %v)", n, wn, werr)
+		return
+	}
+	if got := h.Sum16(); got != want {
+		c.Violation(pre, "one Write of %d zero bytes (2^32 + %d) after a 3-byte write: got %#04x, CRC-16/ARC gives %#04x", n, n64-1<<32, got, want)
+		return
+	}
+	if c.Tier != "thorough" {
+		c.Count("single_writes_of_4_GiB_or_more", 1)
+		c.Nontrivial([]byte("huge"), []byte(fmt.Sprint(n64)))
+		return
+	}
+	// (thorough tier) the same bytes in two parts, cut at a place that is no multiple of anything
+	g := dyncrc16.New()
+	g.Write(pre)
+	k := n/2 + 12345
+	g.Write(m[:k])
+	c.Tick()
+	g.Write(m[k:n])
+	c.Eval()
+	c.Tick()
+	if g.Sum16() != want {
+		c.Violation(pre, "%d zero bytes written as %d + %d: got %#04x, CRC-16/ARC gives %#04x", n, k, n-k, g.Sum16(), want)
+		return
+	}
+	c.Count("single_writes_of_4_GiB_or_more", 1)
+	c.Nontrivial([]byte("huge"), []byte(fmt.Sprint(n64)))
+}
+
 // c14Shared: see the rule text. The sum of a byte sequence does not depend on where the bytes
 // live or on who else reads them.
 func c14Shared(c *lib.Ctx, idx uint64) {
